@@ -636,9 +636,12 @@ def configs(tier, seed):
     def _parsable(c):
         # the parser types the coefficients by the physical type: fractional coefficients need a
         # float physical type
-        frac = any(float(x) != int(x) for sc in c["cm"].get("scales", []) + c["cm"].get("inv_scales", [])
-                   for x in list(sc.get("num", [])) + list(sc.get("den", [])))
-        return not (frac and c["pt"] in INTS)
+        def frac(scs):
+            return any(float(x) != int(x) for sc in scs
+                       for x in list(sc.get("num", [])) + list(sc.get("den", [])))
+        # (the coefficients of COMPU-PHYS-TO-INTERNAL are typed by the internal type)
+        return not (frac(c["cm"].get("scales", [])) and c["pt"] in INTS) and \
+            not (frac(c["cm"].get("inv_scales", [])) and c["it"] in INTS)
     for c in [c for c in out if _xml_too(c) and _parsable(c)]:
         out.append(dict(c, id=c["id"] + "/xml", via_xml=True, build=dict(c["build"], via_xml=True)))
     for vt in ("A_INT32", "A_UINT32", "A_FLOAT64"):
